@@ -5,21 +5,21 @@
 ; state G that the builder primitives maintain (S-fwd).
 ; ---------------------------------------------------------------------------
 (declare-datatypes ((OutP 0)) (((PRet (pret_val (_ BitVec 32))) (PFall (pfall_A (_ BitVec 32))) (PPend (ppend_l Int) (ppend_A (_ BitVec 32))) (PStuck))))
-(define-fun-rec runP ((P seccomp.Program) (x Int) (A (_ BitVec 32))) OutP
-  (let ((I (seccomp.Program.instructions P)))
+(define-fun-rec runP3 ((I Slice<I.bpf.Instruction>) (J Slice<seccomp.JumpIf>) (L Map<Int~Slice<Int>>) (x Int) (A (_ BitVec 32))) OutP
+  (let ((unused 0))
   (ite (or (< x 0) (> x (plen I))) PStuck
   (ite (= x (plen I)) (PFall A)
   (let ((i (insnAt I x)))
   (ite ((_ is I.bpf.Instruction.box.bpf.RetConstant) i) (PRet (bpf.RetConstant.Val (I.bpf.Instruction.unbox.bpf.RetConstant i)))
   (ite ((_ is I.bpf.Instruction.box.bpf.LoadAbsolute) i)
-       (runP P (+ x 1) (word ev (bpf.LoadAbsolute.Off (I.bpf.Instruction.unbox.bpf.LoadAbsolute i))))
+       (runP3 I J L (+ x 1) (word ev (bpf.LoadAbsolute.Off (I.bpf.Instruction.unbox.bpf.LoadAbsolute i))))
   (ite ((_ is I.bpf.Instruction.box.bpf.JumpIf) i)
-       (let ((k (jidx (seccomp.Program.jumps P) x 0)) (j (I.bpf.Instruction.unbox.bpf.JumpIf i)))
-         (ite (>= k (Slice<seccomp.JumpIf>.len (seccomp.Program.jumps P))) PStuck
-           (let ((rec (select (Slice<seccomp.JumpIf>.arr (seccomp.Program.jumps P)) k)))
+       (let ((k (jidx J x 0)) (j (I.bpf.Instruction.unbox.bpf.JumpIf i)))
+         (ite (>= k (Slice<seccomp.JumpIf>.len J)) PStuck
+           (let ((rec (select (Slice<seccomp.JumpIf>.arr J) k)))
              (let ((l (ite (jtest (bpf.JumpIf.Cond j) A (bpf.JumpIf.Val j)) (seccomp.JumpIf.trueLabel rec) (seccomp.JumpIf.falseLabel rec))))
-               (let ((d (destOf (seccomp.Program.labels P) l x)))
-                 (ite (<= d x) (PPend l A) (runP P d A)))))))
+               (let ((d (destOf L l x)))
+                 (ite (<= d x) (PPend l A) (runP3 I J L d A)))))))
        PStuck))))))))
 (define-fun stripP ((o OutP)) Outcome
   (ite ((_ is PRet) o) (Ret (pret_val o)) (ite ((_ is PFall) o) (Fall (pfall_A o)) Stuck)))
